@@ -15,7 +15,10 @@ TYPES = {
     "decimal(10,2)": ["1.50", "-0.01", "12345678.90", "null"],
     "date": ["date '2024-02-29'", "date '1970-01-01'", "null"],
     "timestamp": ["timestamp '2024-02-29 23:59:59'", "null"],
-    "varchar": ["'a'", "''", "'a,b'", "'say \"hi\"'", "'it''s'", "'l1\nl2'", "' lead'", "'NULL'", "'x|y'", "'tab\there'", "'say \"hi\", it''s me'", "'q\"|\"q'", "null"],
+    "interval": ["interval '1' day", "interval '-2' month", "cast('1 day 2 hours 3 seconds' as interval)", "interval '0' day", "null"],
+    "blob": ["'\\x00ff'", "'abc'", "'a''b'", "'c\\d,e'", "'q\"uo'", "null"],
+    "varchar": ["'a'", "''", "'a,b'", "'say \"hi\"'", "'it''s'", "'l1\nl2'", "' lead'", "'NULL'", "'x|y'", "'tab\there'", "'say \"hi\", it''s me'", "'q\"|\"q'",
+                "'back\\slash'", "'b\\\"q,d'", "'trail '", "' '", "'\\'", "null"],
 }
 OPTIONS = {
     "default": "",
@@ -23,6 +26,8 @@ OPTIONS = {
     "tab+header": " (delimiter E'\\t', header true)",
     "squote": " (quote '''')",
     "header": " (header true)",
+    "escape": " (escape '\\')",
+    "escape+pipe": " (delimiter '|', escape '\\')",
 }
 
 
@@ -56,7 +61,7 @@ def tables(tier):
 
 def run(tier, seed):
     chk = core.Check("C20", tier, "exploration",
-                     "column type lists of length 1-2 over 9 scalar types x boundary cell values (each value alone in a 1-row table and all together; NULL, '', delimiter/quote/newline/tab in strings, the text NULL, extreme numbers) "
+                     "column type lists of length 1-2 over 11 scalar types x boundary cell values (each value alone in a 1-row table and all together; NULL, '', delimiter/quote/newline/tab in strings, the text NULL, extreme numbers) "
                      f"x {len(OPTIONS)} CSV option sets x {{memory, disk}}; COPY TO then COPY FROM into an identical table; a case = (types, rows, options, engine); non-trivial = table non-empty", seed)
     ts = tables(tier)
     scripts, meta, files = [], [], []
@@ -102,15 +107,31 @@ def run(tier, seed):
         if U.status(exp) != "rows":
             chk.fail(cid, f"export-fails:{U.status(exp).split(':')[0]}@{tag}", case, exp)
             continue
+        esc = ":escape-option" if case["options"].startswith("escape") else ""
         if U.status(imp) != "rows":
-            chk.fail(cid, f"import-fails@{tag}:{feat}", case, imp)
+            chk.fail(cid, f"import-fails@{tag}{esc}", case, imp)
             continue
         if not (U.is_rows(a) and U.is_rows(b)):
             chk.fail(cid, f"select-fails@{tag}", case, {"t": a, "u": b})
             continue
         if U.mset(U.decode(a)) != U.mset(U.decode(b)):
-            lost = (U.mset(U.decode(a)) - U.mset(U.decode(b)))
-            chk.fail(cid, f"rows-differ@{tag}:{feat}", case, {"exported": a["rows"][:10], "imported": b["rows"][:10], "n": (len(a["rows"]), len(b["rows"]))})
+            ma, mb = U.mset(U.decode(a)), U.mset(U.decode(b))
+            lost, extra = ma - mb, mb - ma
+            # classify every exported row that did not come back: the signature names the kinds of damage, so that a new kind
+            # of damage in a table that already has a known one is a different (unknown) signature
+            kinds = set()
+            extra_left = list(extra.elements())
+            for row in lost.elements():
+                as_null = tuple(None if v == "" else v for v in row)
+                if as_null != row and as_null in extra_left:
+                    extra_left.remove(as_null)
+                    kinds.add("empty-string-imported-as-null")
+                else:
+                    kinds.add("cell-changed-or-row-lost")
+            if extra_left:
+                kinds.add("unexpected-rows")
+            chk.fail(cid, f"rows-differ@{tag}{esc}:" + "+".join(sorted(kinds)), case,
+                     {"lost": [list(r) for r in list(lost.elements())[:6]], "extra": [list(r) for r in list(extra.elements())[:6]], "n": (len(a["rows"]), len(b["rows"]))})
             continue
         chk.ok(cid, nontrivial=len(a["rows"]) > 0, outcome=f"rows={min(len(a['rows']), 9)}", sample={"case": case})
     chk.assumptions += ["the CSV file is written and read with the same option list"]
